@@ -81,6 +81,9 @@ func (s *smtSession) write(cmds string) error {
 	if s.dead {
 		return fmt.Errorf("solver session is closed")
 	}
+	if replayDebug && len(cmds) < 2000 {
+		fmt.Fprintf(os.Stderr, "replay> %s", truncate(cmds, 300))
+	}
 	done := make(chan error, 1)
 	go func() {
 		_, err := io.WriteString(s.in, cmds)
@@ -229,6 +232,9 @@ type modelReader struct {
 	pins     []string
 	npinned  int
 	shapes   int
+	restarts int
+	repairs  int
+	accepted string // shape constraints accepted so far (re-sent to every fresh solver)
 	wmark    *big.Int
 	inputs   []string // human-readable summary of the parameter values
 }
@@ -280,6 +286,32 @@ func (m *modelReader) shapeCmds(cmds string) bool {
 		return false
 	}
 	m.shapes++
+	if m.s.script != "" && m.restarts >= 1 {
+		// (after the incremental way below has failed once) A FRESH solver gets the query, everything read so far (pinned), the shape constraints accepted so far and the new
+		// one. Incremental push/check/pop proved unreliable here: after one slow check the solver stays slow. The current
+		// solver (and its model) stays untouched until the new one has answered.
+		per := 15 * time.Second
+		if d := time.Until(m.s.deadline) - 10*time.Second; d < per {
+			per = d
+		}
+		ns, err := startSession(m.s.name, m.s.args, time.Now().Add(per))
+		if err != nil {
+			return false
+		}
+		ns.write(m.s.script + strings.Join(m.pins, "") + m.accepted + cmds)
+		r := ns.checkSat()
+		if r == m.s.base && (r == "sat" || ns.incompleteOnly()) {
+			if _, err := ns.getValues([]string{"H0_W"}); err == nil {
+				ns.base, ns.script, ns.args, ns.deadline = m.s.base, m.s.script, m.s.args, m.s.deadline
+				m.s.close()
+				m.s = ns
+				m.accepted += cmds
+				return true
+			}
+		}
+		ns.close()
+		return false
+	}
 	var b strings.Builder
 	for _, p := range m.pins[m.npinned:] {
 		b.WriteString(p)
@@ -301,7 +333,9 @@ func (m *modelReader) shapeCmds(cmds string) bool {
 		r2 := m.s.checkSat()
 		m.s.write("(set-option :timeout 4294967295)\n")
 		if r2 == m.s.base {
-			return false
+			if _, err := m.s.getValues([]string{"H0_W"}); err == nil {
+				return false
+			}
 		}
 	}
 	// a timed-out attempt leaves the solver in a slow state: go back to a fresh solver with everything read so far pinned
@@ -320,7 +354,9 @@ func (m *modelReader) shapeCmds(cmds string) bool {
 	if r := ns.checkSat(); r != ns.base {
 		panic(unsupportedErr{"model extraction: the solver lost the model while shaping (" + r + ")"})
 	}
-	m.shapes = 1000 // no further shaping in the restarted solver
+	if m.restarts++; m.restarts >= 3 {
+		m.shapes += 1000 // no further shaping after the third restart
+	}
 	return false
 }
 
@@ -684,7 +720,29 @@ func (m *modelReader) readSlice(term string, elem types.Type, path string) (res 
 		return nil
 	}
 	if off.Sign() < 0 || ln.Sign() < 0 || cp.Cmp(ln) < 0 || !m.ptrRootOK(arr) {
-		return nil // not a well-formed slice: a cell the path never loads
+		// not a well-formed slice: a cell the path never loads (then any value is as good: nil), or one that only
+		// specifications talk about; a few of them may be repaired by asking for a well-formed header
+		if m.repairs >= 4 {
+			return nil
+		}
+		m.repairs++
+		wfS := and(app("<=", "0", soff(term)), app("<=", "0", slen(term)), app("<=", slen(term), scap(term)), app("<=", app("+", soff(term), scap(term)), "64"),
+			implies(eq(sarr(term), nilPtr), eq(scap(term), "0")), app(">=", app("root", sarr(term)), "0"), app("<", app("root", sarr(term)), "H0_W"))
+		if !m.shape(wfS) {
+			return nil
+		}
+		vs = m.get(sarr(term), soff(term), slen(term), scap(term))
+		arr = vs[0]
+		off, ok1 = sxInt(vs[1])
+		ln, ok2 = sxInt(vs[2])
+		cp, ok3 = sxInt(vs[3])
+		if !ok1 || !ok2 || !ok3 || off.Sign() < 0 || ln.Sign() < 0 || cp.Cmp(ln) < 0 || !m.ptrRootOK(arr) {
+			return nil
+		}
+		if sxIsNilPtr(arr) {
+			m.pin(sarr(term), arr)
+			return nil
+		}
 	}
 	reshaped := false
 	if arr.head() != "Base" && m.shape("((_ is Base) "+sarr(term)+")") {
